@@ -277,7 +277,15 @@ class Repo:
             stack = list(ast.iter_child_nodes(n)) + stack
 
     def _load_module_defs(self, mi: ModuleInfo):
+        # imports guarded by `if TYPE_CHECKING:` (names used in annotations only)
+        # or wrapped in try/except bind the same names
+        guarded = []
         for stmt in mi.tree.body:
+            if isinstance(stmt, ast.If) and "TYPE_CHECKING" in ast.unparse(stmt.test):
+                guarded += [x for x in stmt.body if isinstance(x, (ast.Import, ast.ImportFrom))]
+            elif isinstance(stmt, ast.Try):
+                guarded += [x for x in stmt.body if isinstance(x, (ast.Import, ast.ImportFrom))]
+        for stmt in guarded + list(mi.tree.body):
             if isinstance(stmt, ast.Import):
                 for a in stmt.names:
                     local = a.asname or a.name.split(".")[0]
